@@ -325,8 +325,12 @@ sqf::runtime::runtime::result sqf::runtime::runtime::execute(sqf::runtime::runti
             m_is_exit_requested = false;
             m_is_halt_requested = false;
             m_run_timestamp = std::chrono::system_clock::now();
+            if (m_contexts.empty())
+            { // Nothing to run is no failure: the VM is, and stays, empty
+                res = result::empty;
+            }
             // There may be no active context yet (nothing was started or stepped so far)
-            auto scopeFrames = context_active().frames_size();
+            auto scopeFrames = m_contexts.empty() ? 0 : context_active().frames_size();
             auto scopeNum = scopeFrames == 0 ? 0 : scopeFrames - 1;
             m_state = state::running;
             while (!m_is_exit_requested && !m_is_halt_requested && !m_contexts.empty())
@@ -577,6 +581,10 @@ sqf::runtime::runtime::result sqf::runtime::runtime::execute(sqf::runtime::runti
             bool success;
             m_state = state::running;
             std::optional<diagnostics::diag_info> dinf;
+            if (m_contexts.empty())
+            { // Nothing to run is no failure: the VM is, and stays, empty
+                res = result::empty;
+            }
             while (!m_is_exit_requested && !m_is_halt_requested && !m_contexts.empty())
             {
                 if (!dinf.has_value() && !context_active().empty())
